@@ -860,7 +860,7 @@ class Explore:
     tries:   "both" | "ok" | "err-only-at:<bb>" — which edges of `?` to follow
     """
 
-    def __init__(self, fn, assume=None, tracked=(), tries="both", start=0, init=None, stop=()):
+    def __init__(self, fn, assume=None, tracked=(), tries="both", start=0, init=None, stop=(), removed_edges=()):
         self.fn = fn
         self.terms = Terms(fn)
         self.assume = dict(assume or {})
@@ -880,6 +880,7 @@ class Explore:
         self.blocks = set()
         self.edges = set()
         self.stop = set(stop)
+        self.removed_edges = set(removed_edges)
         self.state_at = defaultdict(set)
         init_state = tuple((l, (init or {}).get(l)) for l in self.tracked)
         self._run(start, init_state)
@@ -1007,10 +1008,13 @@ class Explore:
                 v = self._decide(bb, state)
                 if v is not None:
                     tb = switch_target(t, v)
-                    self.edges.add((bb, tb))
-                    work.append((tb, out_state))
+                    if (bb, tb) not in self.removed_edges:
+                        self.edges.add((bb, tb))
+                        work.append((tb, out_state))
                     continue
             for s in fn.succs(bb):
+                if (bb, s) in self.removed_edges:
+                    continue
                 self.edges.add((bb, s))
                 work.append((s, out_state))
 
